@@ -147,19 +147,6 @@ pub fn vec_writer_appends() {
     vassert!(v[i] == if i < la { a[i] } else { b[i - la] }, "[C15] the Vec writer (and &mut W) append exactly the bytes, in order");
 }
 
-/// End to end on a buffer: N = 3 pieces with fragment counts (3, 1, 1) as the backends use; compare with the spec bytes
-#[kani::proof] #[kani::unwind(12)]
-pub fn pae_vec_bytes_3() {
-    let h0: [u8; 2] = kani::any(); let h1: [u8; 1] = kani::any(); let h2: [u8; 2] = kani::any();
-    let m: [u8; 3] = kani::any(); let f: [u8; 2] = kani::any();
-    let mut v = alloc::vec::Vec::new();
-    pre_auth_encode([&[&h0[..], &h1[..], &h2[..]], &[&m[..]], &[&f[..]]], &mut v);
-    vassert!(v.len() == 8 + (8 + 5) + (8 + 3) + (8 + 2), "[C15] PAE length is 8 + sum(8 + |piece|)");
-    vassert!(v[..8] == 3u64.to_le_bytes() && v[8..16] == 5u64.to_le_bytes() && v[16..18] == h0 && v[18..19] == h1 && v[19..21] == h2
-        && v[21..29] == 3u64.to_le_bytes() && v[29..32] == m && v[32..40] == 2u64.to_le_bytes() && v[40..42] == f,
-        "[C15] a piece given as several fragments is encoded as their concatenation");
-}
-
 #[kani::proof] #[kani::unwind(10)]
 pub fn canary_pae() {
     let l: usize = kani::any();
